@@ -5,13 +5,13 @@ from rules import misc as M
 
 
 def run(ctx):
-    T.tbl8_event_buffer_codec(ctx)
-    T.tbl10_response_codec(ctx)
-    T.tbl12_xor_stream_fields(ctx)
-    W.wid3_response_layouts(ctx)
-    W.flw12_widen_before_subtract(ctx)
-    W.flt1_lossless_float_codec_compares_bits(ctx)
-    M.lit1_null_patterns(ctx)
+    ctx.run(T.tbl8_event_buffer_codec)
+    ctx.run(T.tbl10_response_codec)
+    ctx.run(T.tbl12_xor_stream_fields)
+    ctx.run(W.wid3_response_layouts)
+    ctx.run(W.flw12_widen_before_subtract)
+    ctx.run(W.flt1_lossless_float_codec_compares_bits)
+    ctx.run(M.lit1_null_patterns)
     return ctx.finish(
         'Static rules: the ingestion message codec and the response codec map every variant to '
         'union members the reader maps back to the same variant; each narrow integer layout is '
